@@ -246,8 +246,10 @@ class C16(Check):
         for ps in psis:
             tasks.append(('peatclsm_specific_yield[psi_s=%s]' % ps, harness_Sy, {'psi_s': ps, 'symbolic': True}))
         tasks.append(('peatclsm_specific_yield_twice[psi_s=-0.024]', harness_Sy, {'psi_s': '-0.024', 'symbolic': False, 'twice': True}))
-        with mp.get_context('fork').Pool(min(8, len(tasks))) as pool:
-            for exp in pool.imap_unordered(_task, tasks):
+        from vf.framework import run_tasks
+        lost = lambda t, why: self.harness_errors.append('%s: no result: %s' % (t[0], why))
+        if True:
+            for exp in run_tasks(_task, tasks, min(8, len(tasks)), lost, timeout_s=1800 if quick else 2 * 3600):
                 self.absorb(exp, need_paths=1)
         if quick:
             # second object in the same process with another sd (witness)
